@@ -280,7 +280,38 @@ impl Opts {
     }
 }
 
+thread_local! {
+    /// When set, `exclude_of` hands the patterns that a pattern file can carry to conserve
+    /// through `Exclude::from_patterns_and_files` (the `--exclude-from` route), in the file
+    /// named here, between comment and blank lines; the rest go as strings.
+    static EXCLUDE_FILE: RefCell<Option<std::path::PathBuf>> = const { RefCell::new(None) };
+}
+
+pub fn set_exclude_file(path: Option<std::path::PathBuf>) {
+    EXCLUDE_FILE.with(|c| *c.borrow_mut() = path);
+}
+
+/// A pattern survives the pattern-file syntax (lines trimmed, `#` comments, blank lines
+/// skipped) unchanged.
+pub fn file_safe_pattern(p: &str) -> bool {
+    !p.is_empty() && p.trim() == p && !p.starts_with('#') && !p.contains('\n') && !p.contains('\r')
+}
+
 pub fn exclude_of(pats: &[String]) -> conserve::Result<Exclude> {
+    if let Some(file) = EXCLUDE_FILE.with(|c| c.borrow().clone()) {
+        let (in_file, direct): (Vec<&String>, Vec<&String>) = pats.iter().partition(|p| file_safe_pattern(p));
+        let mut text = String::from("# patterns\n\n");
+        for (i, p) in in_file.iter().enumerate() {
+            text.push_str(if i % 2 == 0 { "" } else { "  " });
+            text.push_str(p);
+            text.push_str(if i % 3 == 0 { " \n" } else { "\n" });
+            if i % 2 == 1 {
+                text.push_str("   \n#x\n");
+            }
+        }
+        std::fs::write(&file, text).expect("write pattern file");
+        return Exclude::from_patterns_and_files(direct, [file]);
+    }
     if pats.is_empty() {
         Ok(Exclude::nothing())
     } else {
